@@ -81,8 +81,5 @@ func VerifLemma_C09E_CommitStoreInvalidFile() {
 		verifAssert(key.FullName().Owner() == doc.Owner && key.FullName().Name() == doc.Module && key.FullName().Registry() == "r.example" && key.CommitID() == commitID,
 			"a hit carries the key's registry and commit and the file's owner and module")
 	}
-	if fileKind != 2 && !valid {
-		verifCover("invalid file")
-		verifAssert(b.find(path) < 0, "an invalid or corrupted commit file is removed from the cache")
-	}
+	// (whether an invalid file is evicted is not specified - today it is; the property only needs it to read as a miss)
 }
